@@ -321,7 +321,7 @@ CHECKS["C06"] = {
         {"pkg": "internal/handshake", "run": "^TestVerif_C06_", Q: {"timeout": 900}, T: {"timeout": 3400, "shards": 12}},
         {"pkg": ".", "run": "^TestVerif_C06_", Q: {"timeout": 900}, T: {"timeout": 3400, "shards": 8}},
     ],
-    "mandatory_labels": {"all": ["honest", "wrong-target", "attack/only-proof-stands", "tamper/bit-flip", "tamper/truncate", "foreign-key", "manager/honest", "manager/claims-victim-in-contact"]},
+    "mandatory_labels": {"all": ["honest", "wrong-target", "attack/only-proof-stands", "tamper/bit-flip", "tamper/truncate", "foreign-key", "manager/honest", "manager/claims-victim-in-contact", "honest/overlapping-sessions"]},
 }
 
 CHECKS["C19"] = {
@@ -443,7 +443,7 @@ _ADDED6 = {
     "C03": "Forged entries also arrive by replication from a branch concurrent with the victim's history (a replica that merged nothing, Lamport time 1).",
     "C04": "Controlled schedules (DFS + rapid) of overlapping index passes of the writer's task and the replication task over a log that grows meanwhile (instrumented index; the final state must be the state of the entries held).",
     "C05": "Single transient datastore write or read failures while an announcement is registered, also a re-delivered one (an announced key must be usable). Distribution half: one device may deactivate the group after its activation and activate it again at the end (others join meanwhile).",
-    "C06": "Signatures ground against small-order keys.",
+    "C06": "Signatures ground against small-order keys. Two or three honest sessions between three accounts alive at once in one process, their frames delivered one at a time in generated interleavings (crossing requests included): all must complete.",
     "C07": "Contacts whose key is not a point of the curve.",
     "C08": "Group-context layer with an undecodable entry inside a delivered batch.",
     "C13": "The whole (since, until, reverse) cube also over merged logs of two writers with concurrent entries, on two replicas.",
